@@ -20,10 +20,14 @@ Definition attr : Type := (bytes * bytes)%type.
 
 (* the repairs made to the repository for this property; the all-false variant is the code as found:
    F26 (RSA size from the byte length), F27 (PPK Argon2 memory unit), F35 (parseKdfOptions bounds),
-   N1 (a KDF line for PPK files that store no KDF), N2 (encrypted SSH1 keys were not described) *)
-Record fixes := mk_fixes { fx_size : bool; fx_unit : bool; fx_kdf_opts : bool; fx_kdf_v2 : bool; fx_ssh1_enc : bool }.
-Definition all_fixed : fixes := mk_fixes true true true true true.
-Definition none_fixed : fixes := mk_fixes false false false false false.
+   N1 (a KDF line for PPK files that store no KDF), N2 (encrypted SSH1 keys were not described),
+   S1/S2 (an encrypted SSH1 key whose undecrypted private half passes the check bytes was not described /
+   was labelled as stored in the clear; 3DES under the empty passphrase likewise), S3 (an OpenSSH private
+   key encrypted with an AEAD cipher, whose authentication tag follows the encrypted block, was rejected) *)
+Record fixes := mk_fixes { fx_size : bool; fx_unit : bool; fx_kdf_opts : bool; fx_kdf_v2 : bool; fx_ssh1_enc : bool;
+                           fx_ssh1_cipher : bool; fx_ossh_tag : bool }.
+Definition all_fixed : fixes := mk_fixes true true true true true true true.
+Definition none_fixed : fixes := mk_fixes false false false false false false false.
 (* the code as it is now *)
 Definition current : fixes := all_fixed.
 
@@ -452,8 +456,15 @@ Record ossh_header := mk_ossh {
   oh_cipher : bytes; oh_kdf : bytes; oh_opts_off : nat; oh_opts_len : nat;
   oh_numkeys : N; oh_pubkey : bytes; oh_priv : bytes }.
 
-(* ssh.Unmarshal(remaining, &w): string string []byte uint32 []byte []byte, nothing may follow *)
-Definition ossh_unmarshal (rem : bytes) : result ossh_header :=
+(* openssh cipher.c: the ciphers with an authentication tag (16 octets); sshkey.c sshkey_private_to_blob2
+   writes the tag after the length-prefixed encrypted block, private2_decrypt wants exactly that many octets *)
+Definition ossh_auth_len (cipher : bytes) : nat :=
+  if bytes_eqb cipher (bs "aes128-gcm@openssh.com") || bytes_eqb cipher (bs "aes256-gcm@openssh.com")
+     || bytes_eqb cipher (bs "chacha20-poly1305@openssh.com") then 16%nat else 0%nat.
+
+(* ssh.Unmarshal(remaining, &w): string string []byte uint32 []byte []byte and the rest; [tagged] (repair S3):
+   the rest has to be the cipher's authentication tag, before the repair nothing could follow *)
+Definition ossh_unmarshal (tagged : bool) (rem : bytes) : result ossh_header :=
   match rem with [] => Err "ssh: parse error" | _ =>
   match ssh_read_string rem with None => Err "ssh: field CipherName" | Some (cipher, r1) =>
   match ssh_read_string r1 with None => Err "ssh: field KdfName" | Some (kdf, r2) =>
@@ -461,15 +472,15 @@ Definition ossh_unmarshal (rem : bytes) : result ossh_header :=
   match ssh_read_u32 r3 with None => Err "ssh: short read" | Some (nk, r4) =>
   match ssh_read_string r4 with None => Err "ssh: short read" | Some (pub, r5) =>
   match ssh_read_string r5 with None => Err "ssh: short read" | Some (priv, r6) =>
-  match r6 with
-  | [] => Ok (mk_ossh cipher kdf (length rem - length r2 + 4) (length opts) nk pub priv)
-  | _ => Err "ssh: parse error"
-  end end end end end end end end.
+  if Nat.eqb (length r6) (if tagged then ossh_auth_len cipher else 0%nat)
+  then Ok (mk_ossh cipher kdf (length rem - length r2 + 4) (length opts) nk pub priv)
+  else Err "ssh: parse error"
+  end end end end end end end.
 
 Definition parse_openssh_private (fx : fixes) (o : ssh_oracle) (der : bytes) : result info :=
   if negb (prefix_of ossh_magic der) then Err "ssh: invalid openssh private key format" else
   let rem := drop (length ossh_magic) der in
-  let* w := ossh_unmarshal rem in
+  let* w := ossh_unmarshal (fx_ossh_tag fx) rem in
   if negb (oh_numkeys w =? 1) then Err "ssh: multi-key files are not supported" else
   match ssh_parse_public o (oh_pubkey w) with
   | Panic s => Panic s
@@ -632,7 +643,29 @@ Definition ssh1_decrypt (dec : bytes -> bytes) (ct : bytes) : result bytes :=
   if Nat.eqb (Nat.modulo (length ct) 8) 0 then Ok (dec ct)
   else Panic "crypto/cipher: input not full blocks".
 
-Definition ssh1_parse (dec : bytes -> bytes) (data : bytes) : result ssh1_outcome :=
+(* key.go:64-101 the private half: check bytes, d, qInv, q, p.  [lenient] (key.go privateHalfError,
+   repair S1): the half was stored encrypted, so integers that do not parse mean "not decrypted"
+   (ErrCorrupted with the public half) like a check-byte mismatch, not "no key at all" *)
+Definition ssh1_private_part (lenient : bool) (n e comment r : bytes) : result ssh1_outcome :=
+  let corrupted := Ok (S1Corrupted n e comment) in
+  match read_full 4 r with                                                     (* key.go:67 *)
+  | Ok (abab, r) =>
+    if negb ((nth 0 abab 0 =? nth 2 abab 0) && (nth 1 abab 0 =? nth 3 abab 0)) then corrupted else
+    let ints :=
+      let* (d, r) := ssh1_read_mpint_raw r in
+      let* (_, r) := ssh1_read_mpint_raw r in      (* qInv *)
+      let* (q, r) := ssh1_read_mpint_raw r in
+      let* (p, r) := ssh1_read_mpint_raw r in
+      Ok (S1Key (mk_ssh1 n e comment d q p)) in
+    match ints with
+    | Err _ => if lenient then corrupted else ints
+    | _ => ints
+    end
+  | _ => corrupted
+  end.
+
+(* a cipher type other than 0 and 3 is not decrypted: the octets are read as they are *)
+Definition ssh1_parse_gen (fixed : bool) (dec : bytes -> bytes) (data : bytes) : result ssh1_outcome :=
   let hl := length ssh1_header in
   if Nat.ltb (length data) hl then Err "invalid SSH1 private key" else       (* key.go:22 *)
   let* h := go_slice_to data hl in
@@ -643,35 +676,35 @@ Definition ssh1_parse (dec : bytes -> bytes) (data : bytes) : result ssh1_outcom
   let* (n, r) := ssh1_read_mpint_raw r in
   let* (e, r) := ssh1_read_mpint_raw r in
   let* (comment, r) := ssh1_read_string r in
-  let corrupted := Ok (S1Corrupted n e comment) in
   let* r1 :=                                                                   (* key.go:57 *)
      if cipher =? 3 then
        if negb (Nat.eqb (Nat.modulo (length r) 8) 0) then Ok None
        else let* p := ssh1_decrypt dec r in Ok (Some p)
      else Ok (Some r) in
-  match r1 with None => corrupted | Some r =>
-  match read_full 4 r with                                                     (* key.go:67 *)
-  | Ok (abab, r) =>
-    if negb ((nth 0 abab 0 =? nth 2 abab 0) && (nth 1 abab 0 =? nth 3 abab 0)) then corrupted else
-    let* (d, r) := ssh1_read_mpint_raw r in
-    let* (_, r) := ssh1_read_mpint_raw r in      (* qInv *)
-    let* (q, r) := ssh1_read_mpint_raw r in
-    let* (p, r) := ssh1_read_mpint_raw r in
-    Ok (S1Key (mk_ssh1 n e comment d q p))
-  | _ => corrupted
-  end end.
+  match r1 with
+  | None => Ok (S1Corrupted n e comment)
+  | Some r => ssh1_private_part (fixed && negb (cipher =? 0)) n e comment r
+  end.
+(* the code as it is now *)
+Definition ssh1_parse := ssh1_parse_gen true.
 
 (* ssh.go:28 ssh1PublicKeyAttributes: priv.Public() is the *rsa.PublicKey, nothing else is passed *)
 Definition ssh1_public_attrs (fixed : bool) (n : N) (comment : bytes) : list attr :=
   match comment with [] => [] | _ => [(bs "Comment", comment)] end ++
   crypto_public_attrs fixed (PkRsa (Z.of_N n)).
 
-(* parsers.go:267 SSH1PrivateKey.  Since the repair N2 a key whose private half cannot be read
-   because it is encrypted (cipher type byte not 0) is described from its public half *)
+(* parsers.go:280 SSH1PrivateKey.  Since the repair N2 a key whose private half cannot be read
+   because it is encrypted (cipher type byte not 0) is described from its public half; since S2
+   the label follows the cipher type byte also when ParsePrivateKey returns a key *)
 Definition ssh1_private_key (fx : fixes) (dec : bytes -> bytes) (data : bytes) : result info :=
-  let* o := ssh1_parse dec data in
+  let* o := ssh1_parse_gen (fx_ssh1_cipher fx) dec data in
   match o with
-  | S1Key k => Ok (Info (bs "SSH v1 key") (ssh1_public_attrs (fx_size fx) (s1_n k) (s1_comment k)) [])
+  | S1Key k =>
+      let attrs := ssh1_public_attrs (fx_size fx) (s1_n k) (s1_comment k) in
+      if fx_ssh1_cipher fx then
+        let* c := go_index data (length ssh1_header) in
+        Ok (Info (if c =? 0 then bs "SSH v1 key" else bs "SSH v1 key (encrypted)") attrs [])
+      else Ok (Info (bs "SSH v1 key") attrs [])
   | S1Corrupted n _ comment =>
       if fx_ssh1_enc fx then
         let* c := go_index data (length ssh1_header) in
@@ -679,6 +712,11 @@ Definition ssh1_private_key (fx : fixes) (dec : bytes -> bytes) (data : bytes) :
         else Ok (Info (bs "SSH v1 key (encrypted)") (ssh1_public_attrs (fx_size fx) (be_to_N n) comment) [])
       else Err "ssh1.ParsePrivateKey: corrupted"
   end.
+
+(* the part of a key file every reader can read: cipher type, reserved, bit count, n, e, comment *)
+Definition ssh1_public_part (cipher : N) (n e : N) (comment : bytes) : bytes :=
+  ssh1_header ++ [cipher] ++ [0; 0; 0; 0] ++ N_to_be 4 (bitlen n) ++
+  ssh1_mpi_enc n ++ ssh1_mpi_enc e ++ ssh1_string_enc comment.
 
 (* writer of an unencrypted key file (ssh-keygen -t rsa1, authfile.c) *)
 Definition ssh1_enc (cipher : N) (n e : N) (comment : bytes) (a b : N) (d qinv q p : N) (pad : bytes) : bytes :=
